@@ -460,6 +460,9 @@ int main(int argc, char **argv)
 				printf("]\n");
 				jwt_checker_error_clear(chk);
 			}
+			/* a key item that verification flagged afterwards must say why (C14: every flagged item carries a message) */
+			if (item && jwks_item_error(item))
+				printf("[\"KI\",%ld,%d,%d,%d,%d,\"v\",%d]\n", idx, prov, ki, kalg, pub, jwks_item_error_msg(item)[0] != 0);
 			jwt_checker_free(chk);
 		}
 		if (op_g) {
@@ -531,6 +534,8 @@ int main(int argc, char **argv)
 			if (a.only >= 0 && tok) { printf(","); vh_put_jstr(stdout, tok); }
 			printf("]\n");
 			free(tok);
+			if (item && jwks_item_error(item))
+				printf("[\"KI\",%ld,%d,%d,%d,%d,\"g\",%d]\n", idx, prov, ki, kalg, pub, jwks_item_error_msg(item)[0] != 0);
 			jwt_builder_free(b);
 		}
 	}
